@@ -170,12 +170,15 @@ fn native_callback_trampoline(
     } else {
         let result_val = unsafe { Box::from_raw(result) };
         // Create a guard for the result if it's an object
-        if let JsValue::Object(obj) = result_val.inner.value() {
-            let guard = interp.heap.create_guard();
-            guard.guard(obj.cheap_clone());
-            Ok(Guarded::with_guard(result_val.inner.value().clone(), guard))
-        } else {
-            Ok(Guarded::unguarded(result_val.inner.value().clone()))
+        // (an object of a released or of another context is not usable here: undefined)
+        match result_val.value() {
+            JsValue::Object(obj) if obj.belongs_to(&interp.heap) => {
+                let guard = interp.heap.create_guard();
+                guard.guard(obj.cheap_clone());
+                Ok(Guarded::with_guard(result_val.value().clone(), guard))
+            }
+            JsValue::Object(_) => Ok(Guarded::unguarded(JsValue::Undefined)),
+            other => Ok(Guarded::unguarded(other.clone())),
         }
     }
 }
